@@ -21,11 +21,11 @@ def lenclass(n):
     return "len<=1MiB" if n <= gen.MIB else "len>1MiB"
 
 
-def make_case(ctx, rng, i, ep, mode, big_share):
+def make_case(ctx, rng, i, ep, mode, big_share, force_size=None):
     algo = "sha256"
     if ep in ("write_algo", "write_hash_algo") or (ep.startswith("writer") and rng.random() < 0.6):
         algo = rng.choice(gen.ALGOS)
-    n = gen.size(rng, big_share)
+    n = gen.size(rng, big_share) if force_size is None else force_size
     data = gen.data(rng, n)
     key = None
     keyed = ep in ("write", "write_algo", "writer_opts", "writer_opts_size", "writer_create")
@@ -71,7 +71,7 @@ def run(ctx):
     big_share = 0.01 if ctx.quick else 0.03
     ctx.rule = ("case = (entry point, mode, algorithm, key, data length class, chunk shape); generated from "
                 "VERIF_SEED over hostile keys, boundary sizes (0,1,4095..4097,1MiB-1..1MiB+1,5MiB) and 9 chunk "
-                "shapes; distinct = distinct (entry point, mode, algo, length class, shape, declared) tuples; "
+                "shapes, plus a sweep over every size 2^k, 3*2^k and neighbours (k <= 17 quick, 21 thorough); distinct = distinct (entry point, mode, algo, length class, shape, declared) tuples; "
                 "a case is non-trivial when it performed a write and at least one read")
     ctx.assumptions = ["hashlib digests are the standard digests", "healthy tmpfs filesystem",
                        "xxh3 digests are checked for determinism and read-back only (no independent implementation)"]
@@ -82,6 +82,12 @@ def run(ctx):
         ep = eps[i % len(eps)]
         mode = modes[(i // len(eps)) % len(modes)]
         cases.append(make_case(ctx, rng, i, ep, mode, big_share))
+    # size sweep: every 2^k, 3*2^k and neighbours, through rotating entry points and modes
+    for j, n in enumerate(gen.edge_sizes(17 if ctx.quick else 21)):
+        for rep in range(2):
+            i = len(cases)
+            cases.append(make_case(ctx, rng, i, eps[(2 * j + rep) % len(eps)], modes[(j + rep) % len(modes)], 0, force_size=n))
+    ctx.count("size_sweep_cases", 2 * len(gen.edge_sizes(17 if ctx.quick else 21)))
     # group into caches: unique keys per cache, <= 60 cases per cache
     groups, cur, seen = [], [], set()
     for c in cases:
